@@ -22,6 +22,17 @@ def classify(spec, problems):
 
 def gen_case(tier, seed, shard, i):
     rnd = random.Random("%s-%d-%d-%d" % (ID, seed, shard, i))
+    if i % 7 == 6:
+        # a cascade whose Einsums are each shape-partitioned (shared inputs may be
+        # partitioned differently by different Einsums)
+        from ..gen import cascade as GC
+        spec = GC.gen_cascade(rnd, n=rnd.choice([2, 2, 3]), mapped=False)
+        for ei, e in enumerate(spec.exprs):
+            info = GC._einsum_info(spec, e)
+            if info["ranks"]:
+                spec = M.add_shape_partitioning(rnd, spec, info, ordered=True, ei=ei)
+        spec.tags.append("cascade-partitioned")
+        return spec, rnd
     base, info = G.gen_plain(rnd, allow_take=(i % 3 == 0), max_ranks=3)
     if "take-in-sum" in base.tags:
         base, info = G.gen_plain(rnd, allow_take=False, max_ranks=3)
@@ -76,7 +87,7 @@ def finalize(results, counters, tier, seed):
     inc = []
     if counters.get("status", {}).get("ok", 0) < N[tier] // 4:
         inc.append("too few accepted cases: %r" % counters.get("status"))
-    need = ["three-level", "nway-above-uniform", "part-contracted-outer", "size1",
+    need = ["cascade-partitioned", "three-level", "nway-above-uniform", "part-contracted-outer", "size1",
             "part-output", "part-contracted", "symbolic", "unordered", "ordered"]
     miss = [s for s in need if counters.get("strata_ok", {}).get(s, 0) == 0]
     if miss:
